@@ -354,7 +354,11 @@ def check_case(acc, case, project=None) -> list[dict]:
                         ok_ids |= set(node["ids"])
                 if low in slug_to_idx:
                     ok_ids |= set(sections[slug_to_idx[low]]["ids"])
-                if rn.get("refid") in ok_ids and n_warn(lk) == 0:
+                # (Sphinx: the line-less warnings of several table-cell links to one target cannot be told apart; the count
+                # of warnings per target is still checked below)
+                twin_cells = frontend == "sphinx" and lk["wrap"] == "cell" and any(
+                    o is not lk and o["to"] == lk["to"] and o["wrap"] == "cell" for o in links)
+                if rn.get("refid") in ok_ids and (n_warn(lk) == 0 or twin_cells):
                     continue
             expected_missing.append((lk["line"], to))
             n_w = [w for w in wl if repr(to) in w]
